@@ -26,7 +26,15 @@ impl<'a> Iterator for RuntimeGuardIter<'a> {
             return Some(Err(err));
         }
 
-        match self.inner.next() {
+        let next = self.inner.next();
+        // An expression evaluated while producing this row failed in a place that can only
+        // return a value (e.g. an EXISTS subquery that hit a limit): the row is not trustworthy.
+        if !matches!(next, Some(Err(_)))
+            && let Some(err) = self.params.take_deferred_error()
+        {
+            return Some(Err(err));
+        }
+        match next {
             Some(Ok(row)) => {
                 if let Err(err) = self.params.note_emitted_row(self.stage) {
                     return Some(Err(err));
